@@ -1,6 +1,7 @@
 package composite
 
 import (
+	apiextensionsv1 "k8s.io/apiextensions-apiserver/pkg/apis/apiextensions/v1"
 	"net/http"
 
 	"metacontroller/pkg/apis/metacontroller/v1alpha1"
@@ -448,6 +449,40 @@ func TestVerifC20Composite(t *testing.T) {
 	vs.Run(t, "C20", func(c *vs.Case) error {
 		env := vw.NewC20Env()
 		return vw.PropC20(c, "composite", env, newC20CompositeDriver(env))
+	})
+}
+
+// The gate "parent CRD without status subresource cannot start" on multi-version CRDs: what counts is the version the
+// controller names, not the storage version or any other served one (the status endpoint exists per version).
+func TestVerifC20StatusGate(t *testing.T) {
+	vs.Run(t, "C20", func(c *vs.Case) error {
+		n := 1 + c.Int(3)
+		names := []string{"v1", "v1beta1", "v2"}[:n]
+		storage := c.Int(n)
+		crd := &apiextensionsv1.CustomResourceDefinition{}
+		has := map[string]bool{}
+		for i, v := range names {
+			ver := apiextensionsv1.CustomResourceDefinitionVersion{Name: v, Served: true, Storage: i == storage}
+			switch c.Int(3) {
+			case 0:
+				ver.Subresources = &apiextensionsv1.CustomResourceSubresources{Status: &apiextensionsv1.CustomResourceSubresourceStatus{}}
+				has[v] = true
+			case 1:
+				ver.Subresources = &apiextensionsv1.CustomResourceSubresources{} // e.g. only scale would be set
+			}
+			crd.Spec.Versions = append(crd.Spec.Versions, ver)
+		}
+		asked := []string{"v1", "v1beta1", "v2", "v3"}[c.Int(4)]
+		c.Describe(func() any {
+			return map[string]any{"versions": names, "storage": names[storage], "withStatus": has, "controllerNames": asked}
+		})
+		if has[asked] != has[names[storage]] {
+			c.NonTrivial()
+		}
+		if got := common.HasStatusSubresource(crd, asked); got != has[asked] {
+			return vs.Violf("C20/status-gate-wrong-version", "parent CRD versions %v (storage %s, status subresource on %v): a controller naming version %s is told hasStatus=%v", names, names[storage], has, asked, got)
+		}
+		return nil
 	})
 }
 
